@@ -73,16 +73,19 @@ func (s *LStack[T]) Pop() (item T) {
 
 // Peek returns the last element of the stack without removing it.
 func (s *LStack[T]) Peek() T {
-	s.mu.RLock()
-	defer s.mu.RUnlock()
+	// The list's Last moves the embedded head node while it walks: it needs
+	// the write lock although Peek does not change the stack.
+	s.mu.Lock()
+	defer s.mu.Unlock()
 
 	return s.list.Last()
 }
 
 // Search searches for an element in the stack.
 func (s *LStack[T]) Search(item T) bool {
-	s.mu.RLock()
-	defer s.mu.RUnlock()
+	// The list's Find rewrites the embedded head node: it needs the write lock.
+	s.mu.Lock()
+	defer s.mu.Unlock()
 
 	if s.n == 0 {
 		return false
